@@ -99,7 +99,10 @@ func MergeClearSign(w io.Writer, sig []byte, message io.Reader) error {
 	readPipe, writePipe := io.Pipe()
 	done := make(chan error)
 	go func() {
-		done <- headClearSign(readPipe, out)
+		err := headClearSign(readPipe, out)
+		// unblock ClearSign if copying stopped early, e.g. on a write error
+		_ = readPipe.CloseWithError(err)
+		done <- err
 	}()
 
 	err = ClearSign(writePipe, signer, message, config)
